@@ -87,7 +87,7 @@ def stepLine (s : St) (line : String) : St × String :=
     | _, _ => (s, "bad-op")
   | ["end"] =>
     let c := s.core
-    (s, s!"live={b01 c.live} cs={csName c.cs} ss={ssName c.ss} pt={b01 c.pt} settled={b01 s.settled} bad={b01 c.bad} paused={b01 c.paused.isSome} streamed={b01 c.m.streamed}")
+    (s, s!"live={b01 c.live} cs={csName c.cs} ss={ssName c.ss} pt={b01 c.pt} settled={b01 s.settled} bad={b01 c.bad} paused={b01 c.paused.isSome} streamed={b01 c.m.streamed} ws={b01 c.websocket}")
   | fs =>
     match parseEv fs with
     | none => (s, "bad-op")
@@ -167,40 +167,6 @@ def reachMain : IO Unit := do
   report "v5" fun c => !c.bad && c.m.v5
   report "closure" closureBad
 
-/-- `mv_c03 cert`: the reachable abstract states as numerals (one per line, ascending), after checking that
-    `dec (enc c) = c` for each of them -/
-def certMain : IO Unit := do
-  let c0 : Core := {}
-  let r := bfs ((Std.HashMap.emptyWithCapacity 4096).insert c0 none) [c0]
-  let all := r.toList.map (·.1)
-  let badRt := all.filter fun c => Core.dec c.enc != c
-  if !badRt.isEmpty then
-    IO.eprintln s!"enc/dec do not round-trip on {badRt.length} states, e.g. {reprStr badRt.head!}"
-    IO.Process.exit 1
-  let nums := (all.map Core.enc).toArray.qsort (· < ·)
-  for n in nums do IO.println (toString n)
-
-/-- projection onto the control skeleton: the auxiliary flow attributes are reset -/
-def skel (c : Core) : Core :=
-  { c with err := .none, hasResp := false, respKind := .norm, reqStream := false, respStream := false, reqWs := false,
-           connect2xx := true, reqBody := false, respBody := false }
-
-def auxAll : List (Core → Core) :=
-  [ErrK.none, .killed, .other].flatMap fun e => bools.flatMap fun hr => [RespKind.norm, .ws101, .up101, .invalid].flatMap fun rk =>
-  bools.flatMap fun rs => bools.flatMap fun ps => bools.flatMap fun ws => bools.map fun c2 =>
-    fun c => { c with err := e, hasResp := hr, respKind := rk, reqStream := rs, respStream := ps, reqWs := ws, connect2xx := c2 }
-
-partial def bfsH (seen : Std.HashSet Core) (frontier : List Core) : Std.HashSet Core :=
-  match frontier with
-  | [] => seen
-  | _ =>
-    let (seen, next) := frontier.foldl (fun acc s =>
-      auxAll.foldl (fun acc f =>
-        (succs (f s)).foldl (fun (acc : Std.HashSet Core × List Core) (_, _, d) =>
-          let d := skel d
-          if acc.1.contains d then acc else (acc.1.insert d, d :: acc.2)) acc) acc) (seen, [])
-    bfsH seen next
-
 def compact (c : Core) : String :=
   let f (b : Bool) (ch : String) := if b then ch else "."
   s!"{csName c.cs}/{ssName c.ss} k={reprStr c.paused} " ++ f c.m.fRH "H" ++ f c.m.fReq "Q" ++ f c.m.fRespH "h" ++ f c.m.fResp "R"
@@ -277,7 +243,6 @@ end C03Driver
 def main (args : List String) : IO Unit :=
   match args with
   | ["reach"] => C03Driver.reachMain
-  | ["cert"] => C03Driver.certMain
   | ["havoc"] => C03Driver.havocMain
   | ["checkinv"] => C03Driver.checkInvMain
   | _ => runState C03Driver.stepLine (init 0 0)
